@@ -195,7 +195,7 @@ func (t *tailBuffer) String() string {
 
 func (w *Worker) start() error {
 	cmd := exec.Command(os.Args[0], "-test.run=^$")
-	cmd.Env = append(os.Environ(), "VERIF_WORKER=1", "GOMAXPROCS=2", "GOTRACEBACK=single")
+	cmd.Env = append(os.Environ(), "VERIF_WORKER=1", "GOMAXPROCS=2", "GOTRACEBACK=single", "GOMEMLIMIT=off", "GOGC=100")
 	cmd.Env = append(cmd.Env, w.Env...)
 	in, err := cmd.StdinPipe()
 	if err != nil {
